@@ -104,6 +104,13 @@ SPECS = [
     (F_GEO, "quad_area", "g_quad_area", [("A", "V"), ("B", "V"), ("C", "V"), ("D", "V")], "S", {}),
     (F_GEO, "aspect_ratio", "g_aspect_ratio", [("A", "V"), ("B", "V"), ("C", "V")], R("S"), {}),
     (F_GEO, "distance_to_segment2D", "g_distance_to_segment2D", [("P", "V"), ("A", "V"), ("B", "V")], R("S"), {}),
+    (F_VEC, "Vec.x", "vec_x", [("self", "V")], "S", {"pick": "getter"}),
+    (F_VEC, "Vec.y", "vec_y", [("self", "V")], "S", {"pick": "getter"}),
+    (F_VEC, "Vec.z", "vec_z", [("self", "V")], "S", {"pick": "getter"}),
+    (F_VEC, "Vec.xy", "vec_xy", [("self", "V")], "V", {"pick": "getter"}),
+    (F_VEC, "Vec.x", "vec_set_x", [("self", "V"), ("value", "S")], "V", {"pick": "setter", "fall_self": True}),
+    (F_VEC, "Vec.y", "vec_set_y", [("self", "V"), ("value", "S")], "V", {"pick": "setter", "fall_self": True}),
+    (F_VEC, "Vec.z", "vec_set_z", [("self", "V"), ("value", "S")], "V", {"pick": "setter", "fall_self": True}),
     (F_VEC, "Vec.zeros", "vec_zeros", [("n", "N")], "V", {"skip_self": True}),
     (F_VEC, "Vec.X", "vec_X", [], "V", {"skip_self": True}),
     (F_VEC, "Vec.Y", "vec_Y", [], "V", {"skip_self": True}),
@@ -127,6 +134,11 @@ SPECS = [
     (F_AABB, "AABB.project", "aabb_project", [("self", "BOX"), ("pt", "V")], R("V"), {}),
     (F_AABB, "AABB.distance", "aabb_distance", [("self", "BOX"), ("pt", "V"), ("which", "K")], R("S"), {}),
     (F_AABB, "AABB.is_empty", "aabb_is_empty", [("self", "BOX")], "B", {}),
+    (F_AABB, "AABB.dim", "aabb_dim", [("self", "BOX")], "N", {"pick": "getter"}),
+    (F_AABB, "AABB.mini", "aabb_mini", [("self", "BOX")], "V", {"pick": "getter"}),
+    (F_AABB, "AABB.maxi", "aabb_maxi", [("self", "BOX")], "V", {"pick": "getter"}),
+    (F_AABB, "AABB.__and__", "aabb_and", [("self", "BOX"), ("other", "BOX")], R("BOX"), {}),
+    (F_AABB, "AABB.__or__", "aabb_or", [("self", "BOX"), ("other", "BOX")], R("BOX"), {}),
     (F_AABB, "AABB.unit_cube", "aabb_unit_cube", [("dim", "N"), ("centered", "B")], R("BOX"), {"skip_self": True}),
     (F_AABB, "AABB.of_mesh", "aabb_of_mesh", [("mesh", "MESH"), ("padding", "S")], R("BOX"), {"skip_self": True}),
     (F_AABB, "AABB.of_points", "aabb_of_points", [("points", "PTS"), ("padding", "S")], R("BOX"), {"skip_self": True}),
@@ -138,7 +150,8 @@ CALLEES = {
             "sign": "g_sign", "det_2x2": "g_det_2x2", "face_basis": "g_face_basis",
             "intersect_2lines2D": "g_intersect_2lines2D", "signed_angle_2vec3D": "g_signed_angle_2vec3D",
             "triangle_area": "g_triangle_area", "Vec.normalized": "vec_normalized", "Vec.norm": "vec_norm"},
-    F_AABB: {"norm": "g_norm", "AABB": "aabb_init", "Vec.normalized": "vec_normalized"},
+    F_AABB: {"norm": "g_norm", "AABB": "aabb_init", "Vec.normalized": "vec_normalized",
+             "AABB.intersection": "aabb_intersection", "AABB.union": "aabb_union"},
     F_ROT: {"Vec.normalized": "vec_normalized", "Vec.norm": "vec_norm"},
     F_VEC: {"Vec.norm": "vec_norm"},
     F_MATH: {},
@@ -797,6 +810,18 @@ class FnCompiler:
                 env2[nm] = Val(cv, "V", extra="local")
                 return "let %s := %s in\n  %s" % (cv, nv.coq, K(env2))
             self.fail(s, "unsupported attribute assignment")
+        if isinstance(target, ast.Subscript) and isinstance(target.value, ast.Name) and target.value.id in env \
+                and env[target.value.id].ty == "V" and isinstance(target.slice, ast.Constant) \
+                and isinstance(target.slice.value, int) and target.slice.value >= 0:
+            # v[i] = e : functional update of the vector
+            v = self.ex(value, env)
+            if v.ty != "S":
+                self.fail(s, "component assigned a non-scalar")
+            nm = target.value.id
+            cv = self.coqvar(nm)
+            env2 = dict(env)
+            env2[nm] = Val(cv, "V", extra=env[nm].extra)
+            return "let %s := (vset %s %d %s) in\n  %s" % (cv, env[nm].coq, target.slice.value, v.coq, K(env2))
         if not isinstance(target, ast.Name):
             self.fail(s, "unsupported assignment target")
         # det_3x3: mat = np.array([A,B,C])
@@ -1496,6 +1521,19 @@ def gen():
         rel, qual, coqname, params, ret, opt = spec
         src, tree = sources[rel]
         fn = T.find_def(tree, qual, rel)
+        if opt.get("pick"):
+            cls_node = T.find_def(tree, qual.rsplit(".", 1)[0], rel)
+            want_setter = opt["pick"] == "setter"
+            cands = []
+            for m_ in cls_node.body:
+                if isinstance(m_, ast.FunctionDef) and m_.name == qual.rsplit(".", 1)[1]:
+                    decs = [T.dotted(d_) for d_ in m_.decorator_list]
+                    is_setter = any(d_ and d_.endswith(".setter") for d_ in decs)
+                    if is_setter == want_setter and (want_setter or "property" in decs):
+                        cands.append(m_)
+            if len(cands) != 1:
+                raise TranslationError("%s: %s of property %s not found" % (rel, opt["pick"], qual))
+            fn = cands[0]
         # properties / classmethods / staticmethods are compiled from their bodies all the same
         comp = FnCompiler(rel, src, fn, spec, registry)
         text = comp.compile()
